@@ -301,6 +301,9 @@ func (p *parser) parseBin(min int) Expr {
 
 func (p *parser) parseUnary() Expr {
 	t := p.peek()
+	if t.k == "id" && (t.s == "forall" || t.s == "exists") {
+		return p.parseTop() // a quantifier extends as far to the right as possible
+	}
 	if t.k == "op" && (t.s == "!" || t.s == "-" || t.s == "^") {
 		p.next()
 		x := p.parseUnary()
@@ -437,6 +440,8 @@ type SpecFun struct {
 	Ret    string
 	Body   Expr // nil => uninterpreted
 	Text   string
+	Reads  []string // hfun: struct types / memory classes whose heap arrays are implicit arguments
+	Axioms []*Clause
 }
 
 type GhostFun struct {
@@ -462,7 +467,7 @@ func NewSpecs() *Specs {
 	return &Specs{Contracts: map[string]*Contract{}, Funs: map[string]*SpecFun{}, Ghosts: map[string]*GhostFun{}}
 }
 
-var keywordRe = regexp.MustCompile(`^(func|iface|functype|spec|ufun|axiom|lemma|ghost|property|trusted|pure|implements|requires|ensures|modifies|loop|invariant|decreases|end|may_panic|nosafety|assume|alloc)\b`)
+var keywordRe = regexp.MustCompile(`^(func|iface|functype|spec|ufun|hfun|haxiom|axiom|lemma|ghost|property|trusted|pure|implements|requires|ensures|modifies|loop|invariant|decreases|end|may_panic|nosafety|assume|alloc)\b`)
 var labelRe = regexp.MustCompile(`^([A-Za-z_][A-Za-z0-9_.]*)\s*:([^:]|$)`)
 var propTagRe = regexp.MustCompile(`^\[([A-Z0-9 ,]+)\]\s*`)
 var headRe = regexp.MustCompile(`^(\S.*?)\(([^)]*)\)\s*(?:\(([^)]*)\))?\s*$`)
@@ -675,7 +680,20 @@ func (sp *Specs) ParseSpecFile(path string, pkg string) error {
 			if curLoop != nil {
 				curLoop.Decreases = c
 			}
-		case "spec", "ufun":
+		case "haxiom":
+			// haxiom fname: label: expr
+			i := strings.Index(rest, ":")
+			fn := strings.TrimSpace(rest[:i])
+			c, err := mkClause(l, strings.TrimSpace(rest[i+1:]))
+			if err != nil {
+				return err
+			}
+			f := sp.Funs[fn]
+			if f == nil {
+				return fmt.Errorf("%s:%d: haxiom for unknown hfun %s", path, l.n, fn)
+			}
+			f.Axioms = append(f.Axioms, c)
+		case "spec", "ufun", "hfun":
 			// spec name(p T, q T) T = expr      |  ufun name(p T, q T) T
 			i := strings.Index(rest, "(")
 			j := matchParen(rest, i)
@@ -703,6 +721,13 @@ func (sp *Specs) ParseSpecFile(path string, pkg string) error {
 					return fmt.Errorf("%s:%d: %v", path, l.n, err)
 				}
 				f.Body = e
+			} else if kw == "hfun" {
+				k := strings.Index(tail, " reads ")
+				if k < 0 {
+					return fmt.Errorf("%s:%d: hfun without reads", path, l.n)
+				}
+				f.Ret = strings.TrimSpace(tail[:k])
+				f.Reads = splitTop(tail[k+7:])
 			} else {
 				f.Ret = tail
 			}
